@@ -235,6 +235,10 @@ fn mk_nat(ds: &[u64]) -> Natural {
 }
 
 fn nat_add(h: &mut Hist, a: &Natural, b: &Natural) {
+    nat_add_x(h, a, b, true)
+}
+
+fn nat_add_x(h: &mut Hist, a: &Natural, b: &Natural, follow: bool) {
     let (ja, jb) = (nat_json(a), nat_json(b));
     let (a2, b2) = (a.clone(), b.clone());
     let sum = catch(move || a2 + b2);
@@ -245,9 +249,23 @@ fn nat_add(h: &mut Hist, a: &Natural, b: &Natural) {
     // a sum is an operand like any other (its internal digit array may be longer than
     // the value needs): the conversions of every third sum are observed as well
     if let Some(s) = keep {
-        if !s.is_nan() && h.adds_seen() % 3 == 0 {
+        if !s.is_nan() && (h.adds_seen() % 3 == 0 || !follow) {
             nat_f64(h, &s);
             nat_try(h, &s);
+        }
+        // ... and it is added to again (model counting adds sums to sums): a small
+        // operand with a larger / the same / a smaller exponent
+        if follow && !s.is_nan() && s.exp() < u64::MAX - 200 {
+            let k = h.adds_seen();
+            let small = Natural::from([1u32, 3, 5][(k % 3) as usize]);
+            let t = match k % 4 {
+                0 => small << (s.exp() + 1 + k % 7),
+                1 => small << s.exp(),
+                2 => small << s.exp().saturating_sub(1 + k % 5),
+                _ => small << (s.exp() + 64),
+            };
+            nat_add_x(h, &s, &t, false);
+            nat_add_x(h, &t, &s, false);
         }
     }
 }
